@@ -433,6 +433,7 @@ impl Sim {
                     maxfee: 0,
                     maxdelay: 0,
                     retry_for: 0,
+                    label: None,
                     groupid: g,
                     state: CmdState::Replied,
                     parts_created: 0,
@@ -1061,6 +1062,11 @@ impl Sim {
                     }
                     NotifyMode::Stale(s) => {
                         self.stats.fault("notification-stale");
+                        send(self, *s);
+                    }
+                    NotifyMode::Burst(s) => {
+                        self.stats.fault("notification-burst-with-stale");
+                        send(self, h);
                         send(self, *s);
                     }
                     NotifyMode::Malformed(kind) => {
